@@ -157,6 +157,9 @@ func main() {
 			for k := range f.trustedUsed {
 				trusted["abstract/trusted callee contract: "+k] = true
 			}
+			for k := range f.unmodelled {
+				trusted["callee without contract, treated as changing the whole heap: "+k+" (called from "+n+")"] = true
+			}
 			nAssumed += len(f.assumed)
 		}
 		// lemmas
@@ -200,6 +203,7 @@ func main() {
 	nOb, nDis, nCover, nCoverOK := 0, 0, 0, 0
 	slowest, slowName := 0.0, ""
 	solverErrors := []string{}
+	nSkipped := 0
 	bySolver := map[string]int{}
 	byKind := map[string]int{}
 	solverTime := 0.0
@@ -240,6 +244,10 @@ func main() {
 		if *verbose {
 			fmt.Printf("  FAILED %s (%s) %v\n", ob.Name, r.Status, r.Tried)
 		}
+		if r.Status == "skipped" {
+			nSkipped++
+			continue
+		}
 		if r.Status == "error" {
 			solverErrors = append(solverErrors, fmt.Sprintf("UNDECIDED solver-error %s: %s", ob.Name, firstLines(r.Output, 3)))
 			continue
@@ -272,6 +280,9 @@ func main() {
 	}
 	if nOb == 0 {
 		violations = append(violations, fmt.Sprintf("VIOLATION property=%s replay=none no obligations were generated (vacuous check) no-failing-input-found", *prop))
+	}
+	if nSkipped > 0 {
+		fmt.Printf("note: %d further obligations were not attempted after %d failures\n", nSkipped, maxFailures)
 	}
 	for _, k := range knownHit {
 		fmt.Println(k)
